@@ -103,15 +103,15 @@ fn check_value(v: u64, with_poll: bool) -> Result<(), String> {
 /// `expect`: Some((v, w)) = var-int is complete with value v in w bytes; None = caller checks the error itself.
 fn poll_header<F: Family>(varint: &[u8], expect: Option<(u64, usize)>) -> Result<Result<(), F::Error>, String> {
     let first = poll_header_mode::<F>(varint, expect, 0)?;
-    for mode in 1..3 {
+    for mode in 1..4 {
         let other = poll_header_mode::<F>(varint, expect, mode)?;
         if other != first {
             return Err(format!(
-                "{} poll header machine on 30{}: result {:?} when the header arrives byte by byte with Pending in between ({}), {:?} in one read",
+                "{} poll header machine on 30{}: result {:?} when the header arrives byte by byte with {} in between, {:?} in one read",
                 F::FAM.name(),
                 hex(varint),
                 other,
-                if mode == 2 { "future re-created at every Pending" } else { "same future" },
+                ["", "Pending (same future)", "Pending (future re-created at every Pending)", "a transient transport failure (Interrupted / WouldBlock / TimedOut), polled again with the same state,"][mode as usize],
                 first
             ));
         }
@@ -123,8 +123,16 @@ fn poll_header_mode<F: Family>(varint: &[u8], expect: Option<(u64, usize)>, mode
     use std::future::Future;
     let mut data = vec![0x30u8];
     data.extend_from_slice(varint);
-    let steps: Vec<Step> = if mode == 0 { Vec::new() } else { (0..data.len() * 2 + 2).map(|i| if i % 2 == 0 { Step::Pending } else { Step::Chunk(1) }).collect() };
+    let transient = [std::io::ErrorKind::Interrupted, std::io::ErrorKind::WouldBlock, std::io::ErrorKind::TimedOut];
+    let steps: Vec<Step> = match mode {
+        0 => Vec::new(),
+        3 => (0..data.len() * 2 + 2).map(|i| if i % 2 == 0 { Step::Fail(transient[(i / 2) % 3]) } else { Step::Chunk(1) }).collect(),
+        _ => (0..data.len() * 2 + 2).map(|i| if i % 2 == 0 { Step::Pending } else { Step::Chunk(1) }).collect(),
+    };
     let mut reader = ScriptedReader::new(&data, &steps);
+    let transients = reader.transients.clone();
+    let last_transient = reader.last_transient.clone();
+    let mut seen = 0u64;
     let mut state: GenericPollPacketState<F::Header> = GenericPollPacketState::default();
     let waker = crate::sio::noop_waker();
     let mut cx = std::task::Context::from_waker(&waker);
@@ -137,8 +145,22 @@ fn poll_header_mode<F: Family>(varint: &[u8], expect: Option<(u64, usize)>, mode
                 return Err(format!("{} poll header machine on 30{} does not finish", F::FAM.name(), hex(varint)));
             }
             match std::pin::Pin::new(&mut fut).poll(&mut cx) {
-                std::task::Poll::Ready(r) => break 'outer r,
+                std::task::Poll::Ready(r) => {
+                    if transients.get() > seen {
+                        // the transport failed in this poll: the decoder has to say so, and is then polled again
+                        seen = transients.get();
+                        let surfaced = matches!(&r, Err(e) if matches!(F::common(e), Some(Error::IoError(k, _)) if *k == last_transient.get()));
+                        if !surfaced {
+                            return Err(format!("{} poll header machine on 30{}: the transport failed with {:?} and the decoder answered {:?} instead of that I/O error", F::FAM.name(), hex(varint), last_transient.get(), r.map(|x| x.0)));
+                        }
+                        continue 'outer;
+                    }
+                    break 'outer r;
+                }
                 std::task::Poll::Pending => {
+                    if transients.get() > seen {
+                        return Err(format!("{} poll header machine on 30{}: the transport failed with {:?} and the decoder answered Pending", F::FAM.name(), hex(varint), last_transient.get()));
+                    }
                     if mode == 2 {
                         continue 'outer;
                     }
@@ -258,6 +280,20 @@ fn case_pattern(input: &Input, ctx: &mut Ctx) -> CaseResult {
         (Err(true), Err(Error::InvalidVarByteInt)) => ensure!(used == 5, "over-long var-int {}: {} bytes consumed before the error, expected 5", hex(&hdr), used),
         (Err(false), Err(e)) if e.is_eof() => {}
         _ => viol!("decode_raw_header({}) = {:?}; model {:?}", hex(&hdr), got, model),
+    }
+    // the standalone reader over a transport that fails once (Interrupted) before byte j: the error comes back as such;
+    // never a value assembled from the wrong bytes, never one byte too many consumed
+    if let Ok((_, w)) = &model {
+        for j in 0..=*w {
+            let mut rd = ScriptedReader::new(&hdr, &[]);
+            rd.fail_once_at = Some((j, std::io::ErrorKind::Interrupted));
+            let (got, _) = crate::sio::drive(decode_raw_header(&mut rd), 16);
+            match &got {
+                Err(Error::IoError(k, _)) if *k == std::io::ErrorKind::Interrupted => {}
+                other => viol!("decode_raw_header({}) over a transport that is interrupted once before byte {} returned {:?} after consuming {} bytes, instead of the I/O error", hex(&hdr), j, other, rd.pos),
+            }
+            ensure!(rd.pos == j, "decode_raw_header({}) consumed {} bytes although the transport failed before byte {}", hex(&hdr), rd.pos, j);
+        }
     }
     // Header::decode of both families
     let h3 = V3::header_decode(&hdr);
